@@ -82,6 +82,22 @@ def _covered(n: ast.AST, f: Func, need: Set[str]) -> Tuple[bool, Optional[ast.Tr
     return False, None
 
 
+def _nonempty_when(test: ast.AST, lst_txt: str):
+    """truth value of ``test`` under which the list ``lst_txt`` is known to be non-empty (None: unknown)"""
+    if isinstance(test, ast.UnaryOp) and isinstance(test.op, ast.Not):
+        w = _nonempty_when(test.operand, lst_txt)
+        return None if w is None else (not w)
+    if unparse(test) == lst_txt:
+        return True
+    if isinstance(test, ast.Compare) and len(test.ops) == 1 and isinstance(test.left, ast.Call) and getattr(test.left.func, "id", "") == "len" and test.left.args and unparse(test.left.args[0]) == lst_txt and isinstance(test.comparators[0], ast.Constant):
+        op, k = type(test.ops[0]), test.comparators[0].value
+        if (op, k) in ((ast.Gt, 0), (ast.NotEq, 0), (ast.GtE, 1)):
+            return True
+        if (op, k) in ((ast.Eq, 0), (ast.Lt, 1), (ast.LtE, 0)):
+            return False
+    return None
+
+
 def _issue_store(ctx, h: ast.ExceptHandler, f: Func, issue_names: Set[str]) -> Optional[ast.Assign]:
     found = _issue_store_in(h, issue_names)
     if found is not None:
@@ -200,6 +216,54 @@ def check(ctx) -> None:
                     ok3 = isinstance(base, ast.Name) and (base.id in f.params or bool(assignments_to(f, base.id)) or any(base.id in {x.id for x in ast.walk(l.target) if isinstance(x, ast.Name)} for l in own_nodes(f.node) if isinstance(l, ast.For)))
                     if not ok3:
                         ctx.finding("C11-X2", "%s:handler-foreign-record" % short, f.loc(st), "the issue is written to %s, which is not the record of the current row" % unparse(base))
+    # ---------------------------------------------------------------- X8
+    # code of the stage that runs *outside* the per-row handlers (selection among conditions, write-back) must not index
+    # into a result list that a failed / timed-out job leaves empty without testing it first
+    ctx.rule("C11-X8", "the selection step reads element [k] of a per-job result list only under a non-emptiness test of that list", 1)
+    LIST_FIELDS = {"mcs_results", "sorted_reactants", "smiles", "boundary_atoms_products", "nearest_neighbor_products"}
+    sel_funcs = [g for q, g in prog.functions.items() if q.startswith("synrbl.SynMCSImputer.SubStructure.extract_common_mcs.ExtractMCS.") or q == "synrbl.mcs_search.MCSSearch.find"]
+    n_x8 = 0
+    for g in sel_funcs:
+        gcfg = None
+        for n in own_nodes(g.node):
+            if isinstance(n, ast.Subscript) and isinstance(n.slice, ast.Constant) and isinstance(n.slice.value, int) and isinstance(n.value, ast.Subscript) and const_str(n.value.slice) in LIST_FIELDS and isinstance(n.ctx, ast.Load):
+                lst_txt = unparse(n.value)
+                n_x8 += 1
+                guarded = False
+                # conditional expression around it
+                cur, par = n, getattr(n, "_parent", None)
+                while par is not None and par is not g.node:
+                    if isinstance(par, ast.IfExp) and lst_txt in unparse(par.test):
+                        w = _nonempty_when(par.test, lst_txt)
+                        if (w is True and cur is par.body) or (w is False and cur is par.orelse):
+                            guarded = True
+                    if isinstance(par, ast.comprehension) or isinstance(par, (ast.ListComp, ast.GeneratorExp)):
+                        for gen in getattr(par, "generators", []):
+                            if any(lst_txt in unparse(c_) for c_ in gen.ifs):
+                                guarded = True
+                    if isinstance(par, ast.BoolOp) and isinstance(par.op, ast.And) and any(lst_txt in unparse(v_) for v_ in par.values[: par.values.index(cur)] if cur in par.values):
+                        guarded = True
+                    cur, par = par, getattr(par, "_parent", None)
+                if not guarded:
+                    if gcfg is None:
+                        gcfg = CFG(g.node)
+                    nid = gcfg.node_of(n)
+                    if nid is not None:
+                        guarded = any(_nonempty_when(c_, lst_txt) is _pol for c_, _pol in gcfg.guards(nid) if lst_txt in unparse(c_))
+                    # inside a try that catches IndexError / Exception
+                    ok_t, _t = _covered(n, g, {"IndexError"})
+                    guarded = guarded or ok_t
+                ctx.instance("C11-X8", "%s: %s" % (g.name, unparse(n)[:60]), g.loc(n), ok=guarded)
+                if not guarded:
+                    ctx.finding("C11-X8", "%s:unguarded-index:%s" % (g.qualname.split("synrbl.", 1)[-1].split(".")[-1], const_str(n.value.slice)), g.loc(n), "%s is read without testing that the list is non-empty; a reaction whose search failed or timed out under every condition has an empty list, the IndexError escapes the MCS stage and the whole batch is dropped" % unparse(n)[:60])
+    ctx.require(n_x8 >= 1, "no indexed read of a per-job result list found in the selection step")
+    # ---------------------------------------------------------------- X7
+    # the per-row jobs keep no state between calls: an outcome that depends on the clock (a timeout) must not be
+    # remembered and replayed for other rows (shared with C06-B4, restricted to what the jobs reach)
+    from . import c06
+
+    job_scope = ctx.res.reachable([f.qualname for f, _ in jobs if f.qualname != RUN], ctx.graph)
+    c06.rule_b4(ctx, {q for q in job_scope if q.startswith("synrbl.SynMCSImputer.")}, "C11-X7", class_level=False)
     # ---------------------------------------------------------------- X5
     ctx.rule("C11-X5", "every per-row job waits on a private one-thread pool that is created and terminated inside the job", 2)
     for f, _ in jobs:
